@@ -150,6 +150,8 @@ func c19Pool(descs []*gen.Desc) (pool []types.Type, labels []string) {
 	w2 := *w
 	w2.PermuteMethods, w2.FlattenEmbeds, w2.PermuteUnion, w2.RenameTParams = true, true, true, "x"
 	w2.Ctxt = types.NewContext()
+	w3 := *w
+	w3.AbsorbTerms = "N0" // N0 is defined over int: ~int | N0 is identical to ~int
 	foreign, _ := c19World()
 	add := func(t types.Type, l string) { pool = append(pool, t); labels = append(labels, l) }
 	for i, d := range descs {
@@ -157,6 +159,9 @@ func c19Pool(descs []*gen.Desc) (pool []types.Type, labels []string) {
 		add(base, fmt.Sprintf("d%d", i))
 		add(w.Realize(d), fmt.Sprintf("d%d'", i))
 		add(w2.Realize(d), fmt.Sprintf("d%d~perm", i))
+		if ab := w3.Realize(d); strings.Contains(d.String(), "~int") {
+			add(ab, fmt.Sprintf("d%d~absorbed", i))
+		}
 		add(types.NewAlias(types.NewTypeName(0, w.Pkg, fmt.Sprintf("AL%d", i), nil), base), fmt.Sprintf("d%d~alias", i))
 		for rot := 0; rot < 2; rot++ {
 			if tw := c19Twin(d, rot); tw != nil {
